@@ -284,7 +284,12 @@ def _transformed(unit, operand):
     """Calls other than representation changes / accessors, and string literals, in the backward slice of a name."""
     ra = unit.roots(operand)
     changed = sorted({norm(r.site.name) for r in ra if r.kind == "call" and not re.search(IDENT, norm(r.site.name))})
-    lits = sorted({str(r.desc) for r in ra if r.kind == "const" and str(r.desc).startswith('"')})
+    # the message of an `expect` on the way is no part of the name
+    msgs = set()
+    for r in ra:
+        if r.kind == "call" and re.search(r"::expect$", norm(r.site.name)) and len(r.site.args) > 1:
+            msgs |= {str(x.desc) for x in unit.roots(r.site.args[1], through_calls=False) if x.kind == "const"}
+    lits = sorted({str(r.desc) for r in ra if r.kind == "const" and str(r.desc).startswith('"')} - msgs)
     return changed[:4] + lits[:3]
 
 
